@@ -25,6 +25,10 @@ DIRS = [("feature", 1, "M"), ("sample", 0, "N")]
 def check(ctx):
     P = ctx.P
     N = ctx.normalizer()
+    # the requested start reaches the search: the public classes hand `initialize` / `random_state` on unchanged
+    from .C01 import _forwarding
+
+    _forwarding(ctx, rule="R-INIT", classes=("FPS", "PCovFPS"), only=("initialize", "random_state", "mixing"))
     for pkg, axis, S in DIRS:
         cfg = f"{pkg} axis={axis}"
         # ---------------- plain FPS --------------------------------------
